@@ -86,6 +86,11 @@ def finish(meta, src, name):
     old = {}
     if os.path.exists(os.path.join(out, "meta.json")):
         old = json.load(open(os.path.join(out, "meta.json")))
+    tj = os.path.join(out, "tests.json")
+    if "tests" not in meta and os.path.exists(tj):  # the test-suite is run separately (tools/seed_tests.py)
+        t = json.load(open(tj))
+        meta["tests"], meta["tests_pass"] = t["tests"], t["tests_pass"]
+        meta["ran"] += t.get("ran", [])
     if "tests" not in meta and "tests" in old:  # a re-evaluation of the checks keeps the recorded test-suite result
         meta["tests"], meta["tests_pass"] = old["tests"], old.get("tests_pass")
         meta["ran"] += [r for r in old.get("ran", []) if "pytest" in r]
